@@ -35,7 +35,9 @@ static int run_makeflags(int, char**) {
     bool ok = Jobserver::ParseMakeFlagsValue(v.c_str(), &cfg, &err);
     Jobserver::Config cfg2; std::string err2;
     bool ok2 = Jobserver::ParseNativeMakeFlagsValue(v.c_str(), &cfg2, &err2);
-    printf("%d %d %d %s\n", ok, ok2, (int)cfg.mode, hex(cfg.path).c_str());
+    // ok ok_native mode path-hex err-hex err_native-hex mode_native path_native-hex
+    printf("%d %d %d %s %s %s %d %s\n", ok, ok2, (int)cfg.mode, hex(cfg.path).c_str(), hex(err).c_str(), hex(err2).c_str(),
+           (int)cfg2.mode, hex(cfg2.path).c_str());
   }
   return 0;
 }
